@@ -74,10 +74,12 @@ type runner struct {
 
 var ncall int
 
+const atFdcwd = -100
+
 func marker(format string, a ...any) {
 	p := "/VERIF/" + fmt.Sprintf(format, a...)
 	// F_OK on a path that does not exist: no side effect, visible to strace.
-	_ = syscall.Faccessat(-100, p, 0, 0)
+	_ = syscall.Faccessat(atFdcwd, p, 0, 0)
 }
 
 func res(err error) string {
@@ -92,21 +94,143 @@ func (r *runner) call(op string, f func() error) error {
 	ncall++
 	n := ncall
 	marker("inv/%s/%d", op, n)
+	returned := false
+	defer func() {
+		if !returned { // f panicked: close the window, let run() recover
+			marker("ack/%s/%d/panic", op, n)
+		}
+	}()
 	err := f()
+	returned = true
 	marker("ack/%s/%d/%s", op, n, res(err))
 	r.calls[op]++
 	if err != nil {
 		r.errs[op]++
+		if len(r.notes) < 20 {
+			r.notes = append(r.notes, fmt.Sprintf("%s #%d: %v", op, n, err))
+		}
 	}
 	return err
 }
 
 func (r *runner) open() error {
 	return r.call("open", func() error {
-		opts := []wal.walOptShim{}
-		_ = opts
-		return nil
+		var w *wal.WAL
+		var err error
+		lg := hclog.NewNullLogger()
+		// default segment filer (fs.New()) and default meta store (BoltMetaDB)
+		if r.sc.Codec == "bin" {
+			w, err = wal.Open(r.dir, wal.WithSegmentSize(r.sc.SegSize), wal.WithLogger(lg))
+		} else {
+			w, err = wal.Open(r.dir, wal.WithSegmentSize(r.sc.SegSize), wal.WithLogger(lg),
+				wal.WithCodec(valpool.IdentCodec{}))
+		}
+		if err == nil {
+			r.w = w
+		}
+		return err
 	})
+}
+
+// barrier: a no-op DeleteRange beyond the log waits for a pending rotation.
+func (r *runner) barrier() {
+	if r.w == nil {
+		return
+	}
+	_ = r.call("barrier", func() error { return r.w.DeleteRange(1<<62, 1<<62) })
+}
+
+// observe reports every segment file not seen before: size and all-zero-ness
+// (nz = end offset of the last non-zero byte).
+func (r *runner) observe() {
+	ents, err := os.ReadDir(r.dir)
+	if err != nil {
+		return
+	}
+	names := []string{}
+	for _, e := range ents {
+		if strings.HasSuffix(e.Name(), ".wal") && !r.seen[e.Name()] {
+			names = append(names, e.Name())
+		}
+	}
+	sort.Strings(names)
+	for _, n := range names {
+		r.seen[n] = true
+		b, err := os.ReadFile(filepath.Join(r.dir, n))
+		if err != nil {
+			continue
+		}
+		nz := 0
+		for i := len(b) - 1; i >= 0; i-- {
+			if b[i] != 0 {
+				nz = i + 1
+				break
+			}
+		}
+		marker("obs/%s/%d/%d", n, len(b), nz)
+	}
+}
+
+func (r *runner) closeWAL() {
+	if r.w == nil {
+		return
+	}
+	w := r.w
+	r.w = nil
+	_ = r.call("close", func() error { return w.Close() })
+}
+
+// plantOrphan creates a well-named segment file that the metadata does not list.
+func (r *runner) plantOrphan() {
+	_ = r.call("harness", func() error {
+		name := fmt.Sprintf("%020d-%016x.wal", 77, 0xfff0+ncall)
+		r.seen[name] = true
+		return os.WriteFile(filepath.Join(r.dir, name), make([]byte, r.sc.SegSize), 0644)
+	})
+}
+
+func (r *runner) run() {
+	defer func() {
+		if p := recover(); p != nil {
+			r.notes = append(r.notes, fmt.Sprint("panic: ", p))
+		}
+	}()
+	if r.open() != nil {
+		return
+	}
+	r.observe()
+	for _, s := range r.sc.Steps {
+		switch s.Op {
+		case "store":
+			logs := make([]*raft.Log, len(s.Cids))
+			for j, c := range s.Cids {
+				sz := 1
+				if j < len(s.Sz) {
+					sz = s.Sz[j]
+				}
+				logs[j] = r.pool.Log(valpool.Ent{Idx: s.First + uint64(j), Cid: c, Sz: sz})
+			}
+			_ = r.call("store", func() error { return r.w.StoreLogs(logs) })
+			r.barrier()
+		case "delete":
+			_ = r.call("delete", func() error { return r.w.DeleteRange(s.Min, s.Max) })
+			r.barrier()
+		case "set":
+			_ = r.call("set", func() error { return r.w.Set([]byte{byte('k'), byte(s.Key)}, []byte{byte(s.Val)}) })
+		case "reopen":
+			r.closeWAL()
+			if s.Orphan {
+				r.plantOrphan()
+			}
+			if r.open() != nil {
+				return
+			}
+		default:
+			continue
+		}
+		r.observe()
+	}
+	r.closeWAL()
 }
 
 func main() {
@@ -120,8 +244,7 @@ func main() {
 		os.Exit(2)
 	}
 	var scs []scenario
-	rd := bufio.NewReaderSize(f, 1<<20)
-	dec := json.NewDecoder(rd)
+	dec := json.NewDecoder(bufio.NewReaderSize(f, 1<<20))
 	for dec.More() {
 		var s scenario
 		if err := dec.Decode(&s); err != nil {
